@@ -16,6 +16,7 @@ import tempfile
 
 from .. import coqterm as T
 from .. import nsutil as U
+from .. import c11_subsfile as SF
 
 HEADER = ('From PV Require Import Base.Prelude Namespace.Glob Namespace.NsBase '
           'Namespace.ListTree Namespace.NsModel Namespace.MdModel Namespace.NsCheck.\n')
@@ -333,6 +334,19 @@ def fixed_programs(backend: str) -> list:
     prog += [('unsubscribe', 'b')] + S + [('unsubscribe', 'a')] + S
     prog += [('subscribe', 'INBOX')] + S + [('unsubscribe', 'INBOX')] + S + [('unsubscribe', 'zz')] + S
     progs.append(prog)
+    # RENAME onto a name that is only a \\Noselect placeholder (it exists in the hierarchy because
+    # it has inferiors: CREATE D/x without D, or DELETE D while D/x stays): the destination is
+    # taken whether or not an inferior of the source collides with one of the placeholder
+    L = [('list', '', '*')]
+    prog = [('create', 'Archive/2023'), ('create', 'Old'), ('create', 'Old/2023'), ('append', 'Archive/2023'),
+            ('append', 'Archive/2023'), ('append', 'Old/2023')] + L
+    prog += [('rename', 'Old', 'Archive')] + L + [('status', n) for n in ('Archive/2023', 'Old/2023', 'Old')]
+    prog += [('create', 'P/x'), ('create', 'S'), ('create', 'S/y'), ('rename', 'S', 'P')] + L
+    prog += [('status', n) for n in ('P/x', 'S/y', 'P/y')]
+    prog += [('create', 'D'), ('create', 'D/x'), ('append', 'D/x'), ('delete', 'D')] + L
+    prog += [('create', 'E'), ('create', 'E/x'), ('rename', 'E', 'D')] + L
+    prog += [('status', n) for n in ('D/x', 'E/x', 'E')]
+    progs.append(prog)
     return progs
 
 
@@ -382,6 +396,13 @@ def gen_program(rng, backend: str, initial) -> list:
             op = rng.choice([('create', e), ('create', e), ('subscribe', e), ('rename', src, e)])
             prog += [op, ('list', '', '*'), ('lsub', '', '*'), ('status', 'INBOX')]
             advance(op)
+            continue
+        if rng.random() < 0.07:
+            # names with code points that some Python string function treats specially
+            # (line boundaries of splitlines, Unicode white space, case / NFKC oddities, ...)
+            for o in SF.exotic_ops(rng, backend, existing()):
+                prog.append(o)
+                advance(o)
             continue
         if backend != 'dict' and rng.random() < 0.04:
             # lone surrogates: no file name can hold them, maildir refuses them
@@ -973,6 +994,7 @@ def sec_programs(ctx, backend: str, n_prog: int) -> None:
     for _ in range(n_prog):
         progs.append(gen_program(rng, backend, initial_names))
     progs += fixed_programs(backend)
+    progs += SF.exotic_programs(backend)
 
     async def all_():
         out = []
@@ -1022,8 +1044,9 @@ def run(ctx) -> None:
         '(C18); LIST/LSUB names are observed at BaseSession.list_mailboxes, before the printer',
         'maildir: the filesystem is only changed by this server process',
     ]
-    ctx.check_proofs(['Namespace/NsCheck'])
+    ctx.check_proofs(['Namespace/NsCheck', 'Namespace/SubsFileCheck'])
     sec_tables(ctx)
+    SF.sec_subsfile(ctx, JOBS)
     sec_glob(ctx)
     sec_tree(ctx)
     sec_programs(ctx, 'dict', ctx.scale(120, 1200))
@@ -1047,6 +1070,8 @@ def replay(ctx, obj) -> int:
         for k, v in ctx.known_hits.items():
             print('KNOWN', k, v['first'])
         return 1 if ctx.violations else 0
+    if 'subscriptions_names' in obj or 'subscriptions_file' in obj:
+        return SF.replay(obj)
     if 'pattern' in obj:
         print(obj['pattern'], obj['name'], impl_match(obj['pattern'], obj['name']),
               ref_glob(obj['pattern'], obj['name']))
